@@ -236,7 +236,16 @@ def r5(ctx):
         ctx.floor("writers of %s.%s" % (mir.short(adt), field), n_ok, 1)
 
 
+def r6(ctx):
+    """the exchange-confirmed open data held for an order survives in-flight markers (a repeated cancel command must not
+    discard it, otherwise a late older report is accepted afterwards) - shared with C01.R5 / C01.R6"""
+    from rules import C01
+    C01.r5(ctx)
+    C01.r6(ctx)
+
+
 RULES = [
+    ("R6", "in-flight markers keep the last exchange-confirmed open data (open_meta table, record_in_flight_cancel)", r6),
     ("R1", "balance stores guarded by held.time <= snapshot.time_exchange; time and value from one snapshot", r1),
     ("R2", "market-data stores guarded by held time < event.time_exchange; value and time from that event", r2),
     ("R3", "order-state stores over exchange-confirmed state guarded by time_exchange order (= C01.R2)", r3),
